@@ -2,7 +2,8 @@
 
 Model: Model/Ownership.v interpreting Gen/GenOwnership.v (the except clauses of open_las, the close methods, the lazily created
 point source, LasData._write_to's closefd, the stream operations of header reading; all regenerated from the source).
-Correspondence: the complete matrix modes x closefd x source kinds x outcomes x files (+-points, +-EVLRs) x bodies x ways of
+Correspondence: the complete matrix modes x closefd x source kinds (among them a non-seekable stream and a source that offers
+only read(): no seekable/seek/tell attribute at all) x outcomes x files (+-points, +-EVLRs) x bodies x ways of
 letting go, LasData.write and laspy.read matrices, contents that fail AFTER a successful open (point area cut inside a record,
 EVLRs that cannot be decoded: at opening or in read() depending on where they are loaded), streams handed over at a position
 other than 0 (the LAS content starts where the stream stands), plus random multi-session histories; after every event the result class,
@@ -25,12 +26,17 @@ from harness import common, lasio
 DRIVER = "c18"
 ASSUMPTIONS = [
     "uncompressed LAS (no LAZ backend is installed); one laspy handle per stream at a time; no double close",
-    "the stream's own methods do not fail (the non-seekable double refuses seek/tell, nothing else)",
+    "the stream's own methods do not fail (the non-seekable double refuses seek/tell, nothing else; the read-only source has "
+    "read/close/closed and no other attribute: asking it `x.seekable()` is an AttributeError, which the model predicts from the "
+    "way the source asks)",
     "positions are modelled and compared for read sessions only; write/append sessions are compared on closed/open and result class",
     "a LAS content that starts at a position other than 0 of a SEEKABLE stream is generated without EVLRs only: LasHeader.read_evlrs and "
-    "the point reader's seek use the header's absolute offsets (they would look at other bytes); non-seekable streams take every file there",
+    "the point reader's seek use the header's absolute offsets (they would look at other bytes); non-seekable streams and read-only "
+    "sources take every file there",
+    "once read() has failed on undecodable EVLRs of a stream that cannot seek, the stream stands somewhere inside them and a second "
+    "read() would decode whatever bytes follow: not generated (on a stream that can seek the second read() seeks back and fails again: generated)",
     "late failures are generated for read sessions and laspy.read (append mode reads the same header but is compared on open/closed only)",
-    "mode 'w' on a non-seekable destination is refused by an assertion placed before the try block: that exit is outside the "
+    "mode 'w' on a non-seekable destination (or one that has no seekable()) is refused by an assertion placed before the try block: that exit is outside the "
     "failures the property lists (invalid content, unusable header) and is stated separately (C18_w_nonseekable_untouched)",
 ]
 
@@ -38,7 +44,7 @@ SCRATCH = f"/var/tmp/c18_{os.getpid()}"
 OUTCOMES = ["ok", "empty", "badsig", "trunc", "badvlr", "incompat"]
 LATE = ["cutrec", "badevlr"]      # the header is fine, reading fails later (model outcome: ok, with the facts of the content)
 PRE = bytes((i * 37 + 11) % 251 for i in range(4096))      # what a stream holds before the LAS content, when something does
-KINDS = ["bytesio", "file", "rawfile", "double", "double_ns"]
+KINDS = ["bytesio", "file", "rawfile", "double", "double_ns", "double_ro"]
 FILES = [("1.2", 3, 0, 0), ("1.2", 1, 3, 0), ("1.4", 6, 0, 1), ("1.4", 7, 3, 2), ("1.4", 6, 2, 0), ("1.1", 0, 1, 0)]
 
 
@@ -102,6 +108,28 @@ class StreamDouble:
 
     def getvalue(self):
         return self._b.getvalue()
+
+
+class ReadOnlySource:
+    """A source that offers only read(): no seekable, seek, tell, readinto, write, flush (asking for any of them is an
+    AttributeError). close/closed are what the property is about; counts the close calls."""
+
+    def __init__(self, data=b""):
+        self._b = io.BytesIO(data)
+        self.closed = False
+        self.close_calls = 0
+
+    def read(self, n=-1):
+        if self.closed:
+            raise ValueError("I/O operation on closed file.")
+        return self._b.read(n)
+
+    def close(self):
+        self.close_calls += 1
+        self.closed = True
+
+    def position(self):
+        return self._b.tell()
 
 
 # ---------------------------------------------------------------------------------
@@ -283,7 +311,7 @@ def make_stream_at(kind, data, writable, pos):
     """a stream holding `data`, standing at `pos`"""
     st = make_stream(kind, data, writable)
     if pos:
-        if kind == "double_ns":
+        if not seekable_kind(kind):
             st._b.seek(pos)          # the caller has consumed what comes first
         else:
             st.seek(pos)
@@ -297,6 +325,8 @@ def make_stream(kind, data, writable):
         return StreamDouble(data, True)
     if kind == "double_ns":
         return StreamDouble(data, False)
+    if kind == "double_ro":
+        return ReadOnlySource(data)
     os.makedirs(SCRATCH, exist_ok=True)
     _SEQ[0] += 1
     p = os.path.join(SCRATCH, f"f{_SEQ[0]}.las")
@@ -307,7 +337,12 @@ def make_stream(kind, data, writable):
 
 
 def seekable_kind(kind):
-    return kind != "double_ns"
+    return kind not in ("double_ns", "double_ro")
+
+
+def cap_tok(kind):
+    """what the model is told about the stream: it answers seekable() with True | with False | it has no seekable attribute"""
+    return "T" if seekable_kind(kind) else "A" if kind == "double_ro" else "F"
 
 
 def set_content(stream, data, pos=0):
@@ -323,7 +358,7 @@ def set_content(stream, data, pos=0):
 def pos_of(stream, kind):
     if stream.closed:
         return None
-    if kind == "double_ns":
+    if not seekable_kind(kind):
         return stream.position()
     return stream.tell()
 
@@ -558,7 +593,7 @@ def run_impl(scen):
         except Exception as e:  # noqa
             after["usable"] = False
             after["usable_exc"] = type(e).__name__
-    if isinstance(stream, StreamDouble):
+    if isinstance(stream, (StreamDouble, ReadOnlySource)):
         after["close_calls"] = stream.close_calls
     name = getattr(stream, "name", None)
     try:
@@ -687,7 +722,7 @@ def expect_open_ok(mode, outcome, kind, re=True):
 
 
 def random_history(rng):
-    kind = rng.choice(["bytesio", "double", "file", "rawfile", "bytesio", "double", "double_ns"])
+    kind = rng.choice(["bytesio", "double", "file", "rawfile", "bytesio", "double", "double_ns", "double_ro"])
     spec = rng.choice(FILES)
     pre = rng.choice([0, 0, 0, 1, 64, 227, 1000])      # > 0: read sessions and laspy.read only, on a content that starts at `pre`
     if pre and seekable_kind(kind) and spec[3]:
@@ -733,6 +768,7 @@ def random_history(rng):
             closed = cf and not (mode == "w" and not seekable_kind(kind))
             continue
         n = spec[2]
+        once = outcome == "badevlr" and not seekable_kind(kind)     # see ASSUMPTIONS: no second read() after this one failed
         for _ in range(rng.randrange(0, 5)):
             if mode == "r":
                 u = rng.random()
@@ -740,7 +776,7 @@ def random_history(rng):
                     events.append(["P", rng.choice([0, 1, 2, -1, n, n + 3])])
                 elif u < 0.65:
                     events.append(["S", rng.choice([0, 1, n - 1, n, -1, n + 2]), rng.choice([0, 0, 1, 2, 3])])
-                elif u < 0.85:
+                elif u < 0.85 and not (once and ["A"] in events):
                     events.append(["A"])
                 else:
                     events.append(["Q"])
@@ -811,7 +847,8 @@ def register(ctx, sc, steps):
 
 def correspond(ctx):
     ctx.extra["rule"] = (
-        "complete matrix: source kinds {BytesIO, buffered file, unbuffered raw file, stream double, non-seekable stream double} x files "
+        "complete matrix: source kinds {BytesIO, buffered file, unbuffered raw file, stream double, non-seekable stream double, source "
+        "that offers only read() (no seekable/seek/tell attribute)} x files "
         "{1.2 empty, 1.2 with points, 1.4 empty with an EVLR, 1.4 with points and EVLRs} x closefd x [every mode x outcome {ok, empty, bad "
         "signature, truncated header, undecodable VLR / unencodable header (non-Laspy exception), incompatible header}; read sessions: "
         "EVLR preloading on/off x bodies {none, read_points, read, .point_source, seek, combinations} x {with-exit, close(), user "
@@ -832,7 +869,7 @@ def correspond(ctx):
         impl.append((steps, gone, after))
         _RUNS[run_key(sc)] = (steps, gone, after)
         toks = [ev_tok(ev, fi, sc.get("pre", 0)) for ev, fi in zip(sc["events"], fis)]
-        cmds.append("run " + ("T" if seekable_kind(sc["src"]) else "F") + f" {sc.get('pre', 0)} " + " ".join(toks))
+        cmds.append("run " + cap_tok(sc["src"]) + f" {sc.get('pre', 0)} " + " ".join(toks))
     gc.unfreeze()
     outs = common.run_model(cmds, name=DRIVER)
     dis = []
